@@ -361,10 +361,18 @@ func firstLine(s string) string {
 
 // ---- race build -----------------------------------------------------------------------------------------------
 
+// vracePath: the race-detector build of cmd/vrace (built by /verif/check; $VERIF_VRACE for scratch runs).
+func vracePath() string {
+	if p := os.Getenv("VERIF_VRACE"); p != "" {
+		return p
+	}
+	return "/verif/bin/vrace"
+}
+
 var reRaceTop = regexp.MustCompile(`(?m)^  (github\.com/tdewolff/canvas[^\s(]*)\(`)
 
 func raceRun(mode string, seed int64, jobs int) []core.Mismatch {
-	cmd := exec.Command("/verif/bin/vrace", mode, strconv.FormatInt(seed, 10), strconv.Itoa(jobs), "8")
+	cmd := exec.Command(vracePath(), mode, strconv.FormatInt(seed, 10), strconv.Itoa(jobs), "8")
 	cmd.Env = append(os.Environ(), "GORACE=halt_on_error=0 exitcode=66")
 	var so, se bytes.Buffer
 	cmd.Stdout, cmd.Stderr = &so, &se
@@ -536,7 +544,7 @@ func (d Driver) Run(c *core.Ctx) error {
 
 	lap("pool trace")
 	// 5. race build
-	if _, err := os.Stat("/verif/bin/vrace"); err != nil {
+	if _, err := os.Stat(vracePath()); err != nil {
 		c.Broken("race binary /verif/bin/vrace missing (built by /verif/check)")
 	} else {
 		for _, mode := range []string{"mixed", "geometry", "text", "nameless"} {
